@@ -6,9 +6,11 @@
    Vocabulary:
      wf_log log      every sequenced entry has count >= 1 (qts: exactly 1) and a non-zero
                      position; distinct entries of one sequence occupy disjoint ranges
-     mrun c log ops  the manager after ANY list of operations (pushes of arbitrary subsets of
-                     the log in any order / grouping / multiplicity, recoveries, timer
-                     firings, startup), each carrying the server's visible horizon
+     mrun c log ops  the manager after ANY list of operations (update containers with arbitrary
+                     subsets of the log in any order / grouping / multiplicity, unnumbered or
+                     numbered (seq box, applySeq), with or without updatePtsChanged; recoveries,
+                     timer firings, startup; channels tracked from the start or by their first
+                     pushed update), each carrying the server's visible horizon
      accounted s e tr := Deliver s (eid e) is in tr, or TooLong s is in tr
      (the difference recursion of the model carries a fuel of |log|+2 fetches; it is proved
       sufficient: never_out_of_fuel, so the statements below are unconditional)
@@ -29,7 +31,7 @@ Proof. exact no_loss_common_total. Qed.
 Print Assumptions C02_no_loss_common.
 
 Theorem C02_no_loss_channel : forall c log ops vis s,
-  wf_log log -> 2 <= s < nseq c ->
+  wf_log log -> 2 <= s < nseq c -> mtracked (mrun c log ops) s = true ->
   forall e, In e log -> eseq e = s -> base c s < epos e <= vis s ->
             accounted s e (mtr (mrun c log (ops ++ [MChanTooLong vis s]))).
 Proof. exact no_loss_channel_total. Qed.
@@ -39,6 +41,23 @@ Theorem C02_recovery_terminates : forall c log ops, moof (mrun c log ops) = fals
 Proof. exact never_out_of_fuel. Qed.
 Print Assumptions C02_recovery_terminates.
 Print Assumptions C02_no_loss_channel.
+
+(* the explicit recovery signal updatePtsChanged: an unnumbered container carrying it always
+   ends with a completed difference fetch; numbered containers: whenever applySeq applies a
+   batch in which ANY container carries it (not only the last one) *)
+Theorem C02_no_loss_pts_changed : forall c log ops vis cid ids,
+  wf_log log ->
+  forall s e, (s = 0 \/ s = 1) -> In e log -> eseq e = s -> base c s < epos e <= vis s ->
+              accounted s e (mtr (mrun c log (ops ++ [MPushC vis cid 0 ids true]))).
+Proof. exact no_loss_pts_changed. Qed.
+Print Assumptions C02_no_loss_pts_changed.
+Theorem C02_no_loss_pts_changed_seq : forall c log ops vis cid sq ids p,
+  wf_log log -> sq <> 0 ->
+  snd (fst (pushc_apply c log vis (mrun c log ops) cid sq ids p)) = true ->
+  forall s e, (s = 0 \/ s = 1) -> In e log -> eseq e = s -> base c s < epos e <= vis s ->
+              accounted s e (mtr (mrun c log (ops ++ [MPushC vis cid sq ids p]))).
+Proof. exact no_loss_pts_changed_seq. Qed.
+Print Assumptions C02_no_loss_pts_changed_seq.
 
 (* At every moment, recovery or not: whatever a local position has moved past (by pushed
    updates, by gaps filled later, by differences) has been delivered or reported. *)
@@ -62,7 +81,7 @@ Print Assumptions C01_manager_at_most_once.
 (* ---- the findings, as witnesses on the routing BEFORE the repair (Model/UpdMgrOld.v) ---- *)
 Definition E (i k s p n : Z) : entry := {| eid := i; ekind := k; eseq := s; epos := p; ecnt := n |}.
 Definition cfg0 (n : Z) (b : Z -> Z) (sl : Z) : config :=
-  {| nseq := n; base := b; slice_lim := sl; tl_thr := 0; cslice_lim := 0; ctl_thr := 0 |}.
+  {| nseq := n; base := b; tracked0 := fun _ => true; slice_lim := sl; tl_thr := 0; cslice_lim := 0; ctl_thr := 0 |}.
 Definition vis_of (l : list Z) : Z -> Z := fun s => nth (Z.to_nat s) l 0.
 
 (* log [Msg@1; Other@2], nothing pushed, one completed recovery: the other update is lost *)
@@ -93,7 +112,7 @@ Print Assumptions C02_channel_refuted_before_repair.
 Definition w_dlog : list entry := [E 1 1 0 101 1; E 2 1 0 102 1; E 3 1 0 103 1].
 Definition w_dcfg : config := cfg0 2 (fun s => if s =? 0 then 100 else 0) 2.
 Definition w_dops : list mop :=
-  [MStartup (vis_of [100; 0]); MPush (vis_of [103; 0]) [3]; MTimerCommon (vis_of [103; 0])].
+  [MStartup (vis_of [100; 0]); MPushC (vis_of [103; 0]) 1 0 [3] false; MTimerCommon (vis_of [103; 0])].
 Theorem C01_manager_dup_before_repair :
   seq_delivers (mtr (mrun_old w_dcfg w_dlog w_dops)) = [(0, 1); (0, 2); (0, 3); (0, 3)].
 Proof. vm_compute. reflexivity. Qed.
@@ -102,13 +121,15 @@ Example C01_manager_dup_repaired :
   seq_delivers (mtr (mrun w_dcfg w_dlog w_dops)) = [(0, 1); (0, 2); (0, 3)].
 Proof. vm_compute. reflexivity. Qed.
 
-(* non-vacuity: a well-formed log with unique ids, a history satisfying vis_ok with loss,
-   reordering, a duplicate, a sliced recovery; everything is delivered exactly once *)
+(* non-vacuity: a well-formed log with unique ids, a history satisfying vis_ok: numbered
+   containers arriving reordered (seq 2 buffered, then seq 1 carrying updatePtsChanged and a
+   duplicate), loss, a channel that becomes tracked by its first pushed update, sliced
+   recoveries; everything is delivered exactly once *)
 Definition nv_log : list entry := [E 1 0 0 1 1; E 2 1 0 3 2; E 3 0 0 4 1; E 4 2 1 1 1; E 5 3 1 2 1; E 6 4 2 1 1; E 7 5 2 2 1].
-Definition nv_cfg : config := {| nseq := 3; base := fun _ => 0; slice_lim := 1; tl_thr := 0; cslice_lim := 1; ctl_thr := 0 |}.
-Definition nv_vis := vis_of [4; 2; 2].
+Definition nv_cfg : config := {| nseq := 3; base := fun _ => 0; tracked0 := fun s => negb (s =? 2); slice_lim := 1; tl_thr := 0; cslice_lim := 1; ctl_thr := 0 |}.
+Definition nv_vis := vis_of [4; 2; 2; 2].
 Definition nv_ops : list mop :=
-  [MStartup (vis_of [0; 0; 0]); MPush nv_vis [3; 5]; MPush nv_vis [1; 1]; MTooLong nv_vis; MChanTooLong nv_vis 2].
+  [MStartup (vis_of [0; 0; 0; 0]); MPushC nv_vis 1 2 [3; 5; 6] false; MPushC nv_vis 2 1 [1; 1] true; MChanTooLong nv_vis 2].
 Lemma nv_wf : wf_log nv_log.
 Proof.
   split.
@@ -119,7 +140,7 @@ Qed.
 Example C02_nonvacuous :
   wf_log nv_log /\ NoDup (map eid nv_log) /\ vis_ok nv_cfg nv_log (mgr_init nv_cfg) nv_ops /\
   moof (mrun nv_cfg nv_log nv_ops) = false /\
-  seq_delivers (mtr (mrun nv_cfg nv_log nv_ops)) = [(1, 5); (0, 1); (1, 4); (0, 2); (0, 3); (2, 6); (2, 7)].
+  seq_delivers (mtr (mrun nv_cfg nv_log nv_ops)) = [(0, 1); (2, 6); (2, 7); (0, 2); (0, 3); (1, 4); (1, 5)].
 Proof.
   split; [exact nv_wf|]. split.
   - simpl. repeat constructor; simpl; intuition lia.
@@ -127,5 +148,6 @@ Proof.
     assert (H3 : forall (P : Z -> Prop), P 0 -> P 1 -> P 2 -> forall s, 0 <= s < Z.max 2 (nseq nv_cfg) -> P s).
     { intros P H0 H1 H2 s Hs. simpl in Hs.
       assert (s = 0 \/ s = 1 \/ s = 2) as [->|[->| ->]] by lia; auto. }
-    cbn [vis_ok nv_ops]. repeat split; try (apply H3; vm_compute; discriminate).
+    cbn [vis_ok nv_ops mid_ok]. repeat split; try (apply H3; vm_compute; discriminate);
+      try (vm_compute; discriminate); try (intros _; vm_compute; split; discriminate).
 Qed.
